@@ -284,7 +284,7 @@ impl C12 {
         }
         std::fs::write("build.ninja", &m).unwrap();
         let mut out = CaseOut { evals: 1, nontrivial: !junk.is_empty(), ..Default::default() };
-        let child = std::process::Command::new("timeout").args(["-s", "KILL", "20"]).arg(crate::bb::n2_binary()).args(["-j", "1", "out"]).stdin(std::process::Stdio::null()).output();
+        let child = std::process::Command::new("timeout").args(["-s", "KILL", "8"]).arg(crate::bb::n2_binary()).args(["-j", "1", "out"]).stdin(std::process::Stdio::null()).output();
         match child {
             Err(e) => out.viols.push(Viol::new("INFRA", "cannot-run-n2", format!("cannot run n2: {}", e))),
             Ok(o) => {
@@ -293,7 +293,7 @@ impl C12 {
                 if se.contains("panicked") || so.contains("panicked") {
                     out.viols.push(Viol::new("C12", "binary-panicked", format!("n2 panicked while building with this manifest: {}", se.lines().find(|l| l.contains("panicked")).unwrap_or("").chars().take(200).collect::<String>())));
                 } else if o.status.code() == Some(137) || o.status.code().is_none() {
-                    out.viols.push(Viol::new("INFRA", "watchdog", "n2 did not finish within 20 s".to_string()));
+                    out.viols.push(Viol::new("INFRA", "watchdog", "n2 did not finish within 8 s".to_string()));
                 } else if !(o.status.code() == Some(0) || (o.status.code() == Some(1) && (so.contains("n2: error: ") || so.contains("failed: ")))) {
                     out.viols.push(Viol::new("C12", "exit-status", format!("exit {:?} without an error or failed line: {:?}", o.status.code(), so.chars().take(200).collect::<String>())));
                 }
